@@ -1,6 +1,6 @@
 #!/usr/bin/env python3
 """Re-run every seeded change in /verif/seeded against the check of the property it breaks (4 at a time) and
-write seeded/SUMMARY.md.  Usage: tools/seedsweep.py [--jobs N]"""
+write seeded/SUMMARY.md.  Usage: tools/seedsweep.py [--jobs N] [Cxx ...]"""
 import json
 import subprocess
 import sys
@@ -8,7 +8,11 @@ from concurrent.futures import ThreadPoolExecutor
 from pathlib import Path
 
 VERIF = Path(__file__).resolve().parent.parent
-jobs = int(sys.argv[sys.argv.index("--jobs") + 1]) if "--jobs" in sys.argv else 4
+args = sys.argv[1:]
+jobs = 4
+if "--jobs" in args:
+    _i = args.index("--jobs"); jobs = int(args[_i + 1]); del args[_i:_i + 2]
+only = set(args)        # property ids: sweep only their seeds (and leave seeded/SUMMARY.md, the table of record, alone)
 
 
 def one(d):
@@ -23,7 +27,8 @@ def one(d):
 
 
 dirs = sorted(p for p in (VERIF / "seeded").iterdir() if p.is_dir()
-              and "obsolete_since" not in json.loads((p / "meta.json").read_text()))
+              and "obsolete_since" not in json.loads((p / "meta.json").read_text())
+              and (not only or p.name.split("-")[0] in only))
 with ThreadPoolExecutor(jobs) as ex:
     results = dict(ex.map(one, dirs))
 lines = ["# Seeded changes (re-run by tools/seedsweep.py)", "",
@@ -43,5 +48,10 @@ for d in dirs:
     if meta.get("history"):
         lines.append(f"| | _history_: {meta['history']} | | | | |")
 lines += ["", f"{caught} of {len(dirs)} caught with a concrete failing input."]
-(VERIF / "seeded" / "SUMMARY.md").write_text("\n".join(lines) + "\n")
+if not only:
+    (VERIF / "seeded" / "SUMMARY.md").write_text("\n".join(lines) + "\n")
+for d in dirs:
+    c = (results[d.name].get("checks") or {}).get(json.loads((d / "meta.json").read_text()).get("check_with", [d.name.split("-")[0]])[0], {})
+    if c.get("kind") != "failing-input":
+        print(d.name, json.dumps(results[d.name])[:300])
 print("\n".join(lines[-3:]))
